@@ -31,6 +31,8 @@ def polys(tier):
                 out.append(Poly(tuple(zip(cs, exps))))
     out.append(Poly(((0.5, 1), (2.0, 1))))       # repeated exponent: terms add
     out.append(Poly(((2.0, 3), (0.5, 0), (-1.25, 1))))  # unordered
+    out.append(Poly(((-0.0, 0), (0.0, 1), (1.0, 2))))   # both zeros as coefficients
+    out.append(Poly(((0.0, 0), (-0.0, 2), (-0.0, 1))))
     if tier == "quick":
         # all polys with <= 2 terms, and the 3-term ones whose coefficients use >= 2 distinct values incl. a zero or negative
         out = [p for p in out if len(p.terms) <= 2 or (len(set(c for c, _ in p.terms)) >= 2 and p.terms[0][0] != p.terms[2][0])]
@@ -61,6 +63,15 @@ def splines(tier):
         for ex in (False, True):
             out.append(Spline(((0.0, 0.0), (8.0, 10.0), (8.0, -2.0), (31.0, 0.5)), order, ex))
             out.append(Spline(((-4.0, 10.0), (3.0, 0.5), (3.0, 10.0), (8.0, 0.0), (8.0, 0.5), (31.0, -2.0)), order, ex))
+    # both zeros as calibrated values and as raws, in both orders
+    out.append(Spline(((-4.0, -0.0), (0.0, 0.0), (8.0, -0.0), (31.0, 10.0)), 1, True))
+    out.append(Spline(((-0.0, 0.0), (3.0, -0.0), (8.0, 0.5)), 0, False))
+    # long tables (one point per half count / per count): 33, 64, 130 and 300 points; the calibrated values zig-zag, start at -0.0 and pass
+    # through 0.0, and all but those are distinct
+    for n, step in ((33, 1.0), (64, 0.5), (130, 0.25), (300, 1.0)):
+        pts = tuple((-4.0 + i * step, (-0.0 if i == 0 else 0.0 if i == n // 2 else ((i * 37) % n) / 4.0 - (i % 3))) for i in range(n))
+        for order in (0, 1):
+            out.append(Spline(pts, order, order == 0))
     return out
 
 
@@ -359,7 +370,7 @@ def run(ctx):
         "programs": tally.programs,
         "exhaustive": True,
         "bound": (f"{len(polys(ctx.tier))} polynomials (term sets of <= 3 terms, exponents in 0..3, coefficients in -1.25,0,0.5,2) on u5/s5/f16; "
-                  f"{len(splines(ctx.tier))} splines (2..4 strictly increasing raws from -4,0,3,8,31, calibrated from -2,0,0.5,10, order 0/1, extrapolate T/F) "
+                  f"{len(splines(ctx.tier))} splines (incl. tables of 33, 64, 130 and 300 points; 2..4 strictly increasing raws from -4,0,3,8,31, calibrated from -2,0,0.5,10, order 0/1, extrapolate T/F) "
                   "queried at ALL 32 raw values (every knot, both ends, both outside regions); context lists of 0..2 from a 6-criterion alphabet "
                   "(earlier parameter, own raw value, list, boolean expression) x default present/absent x SEL 0..3; enumerations int/float/string encoded "
                   "with listed and unlisted raws, booleans, both also over calibrated encodings; time types with scale/offset; object level: every polynomial and spline "
